@@ -4,9 +4,8 @@ CONSTANTS
   MaxFaults = 1
   BugCheckBeforeCreateRef = FALSE
   BugDeleteWithoutList = FALSE
-  BugDropCloseError = FALSE
+  BugDropCloseError = TRUE
 INVARIANT Safe
-INVARIANT AttachedHaveRef
 INVARIANT NoLeak
 PROPERTY DeleteOnlyUnreferenced
 CHECK_DEADLOCK FALSE
